@@ -27,7 +27,7 @@ ASSUMPTIONS = [
     "secrets.token_bytes is a sound entropy source; only reuse caused by SPSDK's own code (defaults evaluated once, cached values) can make two values equal",
     "HAB DEK generation needs a full HAB configuration and is covered through CsfHabSegment.generate_nonce here and through C07's encrypted builds",
 ]
-FLOORS = {"repeat_kind": 0.5}
+FLOORS = {"repeat_kind": 0.2}
 
 OPS = ["sb20_default", "sb20_explicit", "sb21_default", "sb21_explicit", "sb21_export", "adv_params", "mbi_class", "mbi_config",
        "otfad_blob", "otfad_export", "iee_xts", "iee_ctr", "bee_prdb", "bee_kib", "bee_header", "hab_nonce"]
